@@ -1,7 +1,7 @@
 (* Property-language consequences of the invariant (OCacheProofs) and of the simulation (OCacheSim). *)
 From Coq Require Import List NArith Bool Lia.
 Import ListNotations.
-From AnySync Require Import Model.OCache Proofs.OCacheProofs Proofs.OCacheSim.
+From AnySync Require Import Model.OCache Proofs.OCacheProofs Proofs.OCacheSim Proofs.OCacheAccept.
 Open Scope N_scope.
 
 (* ---- every instance handed to a caller had finished loading (or was added) *)
@@ -32,12 +32,6 @@ Proof.
     destruct (s_cl _ _ S Hcl _ _ Hd) as [t Ht]. rewrite Hidle in Ht. contradiction.
   - destruct R as [t [O _]]. rewrite Hidle in O. discriminate.
 Qed.
-
-(* ... and Close() returning nil implies the shut-down flag *)
-Theorem close_returned_closed : forall ls s t,
-  run fixed init ls = Some s -> In (ERet t RNil) (obs s) ->
-  (exists t0, In (ECall t0 CClose) (obs s)) -> True.
-Proof. auto. Qed.
 
 (* ---- no instance is closed twice: after Close() of n was entered, or TryClose() of n returned true,
         neither Close() nor TryClose() is ever entered for n again *)
@@ -94,4 +88,43 @@ Proof.
            | context [match ?x with _ => _ end] => destruct x eqn:?; try discriminate E2
            | context [if ?x then _ else _] => destruct x eqn:?; try discriminate E2
            end; inversion E2; subst; unfold sealed; simpl; unfold upd; rewrite N.eqb_refl; eauto 7.
+Qed.
+
+(* ---- a Get/Pick never returns an instance whose close had finished before the call started.
+        In monitor terms: [m_call m t = Some (c, st)] records the clock st of the call's start event and
+        [m_cend m n = Some ce] the clock of the close end of instance n (clock = index in the trace, see
+        [mon_clock_length]). *)
+Theorem no_stale_after_remove : forall ls s m t n c st,
+  run fixed init ls = Some s -> mon_run mon0 (obs s) = Some m ->
+  threads s t = PRet (RVal n) -> m_call m t = Some (c, st) ->
+  forall ce, m_cend m n = Some ce -> st < ce.
+Proof.
+  intros ls s m t n c st H Hm Hpc Hc ce Hce.
+  destruct (model_monitor _ _ H) as [m0 [Hm0 [S I]]]. rewrite Hm in Hm0. inversion Hm0; subst m0.
+  pose proof (s_calls _ _ S t) as X. rewrite Hc in X. destruct X as [Hok _].
+  rewrite Hpc in Hok. simpl in Hok. destruct Hok as [Hsh Hsem].
+  destruct c; simpl in Hsh; try discriminate; try contradiction; destruct Hsem as [_ B]; eauto.
+Qed.
+
+Lemma mon_step_clock : forall m e m', mon_step m e = Some m' -> m_clock m' = m_clock m + 1.
+Proof.
+  intros m e m' H. unfold mon_step, mon_create in H. destruct e; simpl in H;
+    repeat match type of H with
+           | context [match ?x with _ => _ end] => destruct x eqn:?; try discriminate H
+           | context [if ?x then _ else _] => destruct x eqn:?; try discriminate H
+           end; inversion H; subst; reflexivity.
+Qed.
+
+Lemma mon_clock_length : forall evs m m', mon_run m evs = Some m' -> m_clock m' = m_clock m + N.of_nat (length evs).
+Proof.
+  induction evs as [|e evs IH]; simpl; intros m m' H.
+  - inversion H; subst. lia.
+  - destruct (mon_step m e) eqn:E; [|discriminate]. rewrite (IH _ _ H). rewrite (mon_step_clock _ _ _ E). lia.
+Qed.
+
+(* ---- what the correspondence check's acceptance means: an accepted observed trace satisfies the property *)
+Theorem accepted_satisfies_spec : forall n steps, accept n steps = true -> spec_C16 (concat steps) = true.
+Proof.
+  intros n steps H. destruct (accept_sound _ _ H) as [ls [s [R [O _]]]].
+  rewrite <- O. eapply model_satisfies_spec; eauto.
 Qed.
